@@ -33,14 +33,33 @@ def b01 (b : Bool) : String := if b then "1" else "0"
 
 /-- canonical line of a permutation: the observables property C07 names -/
 def permLine (q : Perm) : String :=
-  s!"{q.fullName}|{q.simpleName}|{q.v.num}|{q.p.num}|{q.c.num}|{q.z.num}|{q.st.num}|{b01 q.serverCert}|{b01 q.clientCreds}|{q.service}|{q.method}"
+  s!"{q.fullName}|{q.simpleName}|{q.v.num}|{q.p.num}|{q.c.num}|{q.z.num}|{q.st.num}|{b01 q.serverCert}|{b01 q.clientCreds}|{q.service}|{q.method}|{q.certText}|{q.credsText}"
 
 def implPermLine (j : Json) : String :=
   let g (k : String) := field j k
-  s!"{str (g "name")}|{str (g "simple")}|{nat (g "v")}|{nat (g "p")}|{nat (g "c")}|{nat (g "z")}|{nat (g "st")}|{b01 (bool (g "cert"))}|{b01 (bool (g "creds"))}|{str (g "service")}|{str (g "method")}"
+  s!"{str (g "name")}|{str (g "simple")}|{nat (g "v")}|{nat (g "p")}|{nat (g "c")}|{nat (g "z")}|{nat (g "st")}|{b01 (bool (g "cert"))}|{b01 (bool (g "creds"))}|{str (g "service")}|{str (g "method")}|{str (g "certText")}|{str (g "credsText")}"
+
+/-- model ↔ implementation only (the property does not name the receive limit): the line plus
+`Request.MessageReceiveLimit` -/
+def permLineA (q : Perm) : String := permLine q ++ s!"|{q.recvLimit}"
+def implPermLineA (j : Json) : String := implPermLine j ++ s!"|{nat (field j "limit")}"
+
+/-- which of the four checks of `expandSuite` makes a suite misconfigured (first that applies) -/
+def misconfiguredWhy (s : Suite) : String :=
+  if s.reliesOnCerts && !s.reliesOnTls then "certs-without-tls"
+  else if s.reliesOnGet && !only s.protocols .connect then "get"
+  else if s.cvm = .ignore && !only s.protocols .connect then "cvm-ignore"
+  else if s.cvm = .require && !only s.protocols .connect then "cvm-require" else "?"
 
 def keyLine (k : ServerKey) (names : List String) : String :=
   s!"{k.p.num}|{k.v.num}|{b01 k.tls}|{b01 k.certs}|" ++ "\n".intercalate (sortStrings names)
+
+/-- the branch of the model that rejected the input (evidence class label) -/
+def errName : LibErr → String
+  | .suiteNoName => "suite-no-name" | .suiteNoTests => "suite-no-tests" | .suiteDuplicate _ => "suite-duplicate"
+  | .misconfigured _ => "misconfigured" | .testNoName _ => "test-no-name" | .testNoStreamType _ => "test-no-stream-type"
+  | .methodWithoutService _ => "method-without-service" | .serviceWithoutMethod _ => "service-without-method"
+  | .duplicateName _ => "duplicate-name" | .noTestCases => "no-test-cases"
 
 def handle : Handler := fun op inp impl =>
   if !(isNull (field impl "panic")) then
@@ -59,6 +78,7 @@ def handle : Handler := fun op inp impl =>
     let stable := bool (field impl "stable")
     let implPermsJ := arr (field impl "perms")
     let implPerms := sortStrings (implPermsJ.map implPermLine)
+    let implPermsA := sortStrings (implPermsJ.map implPermLineA)
     let keysConsistent := implPermsJ.all fun j => str (field j "name") == str (field j "key")
     let implGroupsJ := arr (field impl "groups")
     let implGroups : List (ServerKey × List String) := implGroupsJ.map fun j =>
@@ -71,7 +91,7 @@ def handle : Handler := fun op inp impl =>
     let agree := match m with
       | .error _ => !implOk
       | .ok lib =>
-        implOk && implPerms == sortStrings (lib.map permLine) &&
+        implOk && implPermsA == sortStrings (lib.map permLineA) &&
         implGroupLines == sortStrings ((group lib).map fun g => keyLine g.1 (g.2.map (·.fullName))) &&
         implAll == [(false, true), (true, false), (true, true)].map fun (cl, sv) =>
           sortStrings ((allPermutations cl sv lib).map (·.fullName))
@@ -85,8 +105,15 @@ def handle : Handler := fun op inp impl =>
       (str (field j "name"),
         ⟨Proto.ofNum (nat (field j "p")), Ver.ofNum (nat (field j "v")), bool (field j "cert"), bool (field j "creds")⟩)
     let grouped := decide (GroupedOnce implKeyed implGroups)
+    -- `duplicate_error_genuine` on the implementation's verdict: with clean names and no
+    -- duplicated definition a duplicate-definition error needs a relevant list repeating a used value
+    let namesOk := decide (NamesClean suites ∧ DefinitionsDistinct suites)
+    let repeats := suites.any fun s => cases.any fun c =>
+      decide (Admits s mode c ∧ (∃ t ∈ s.tests, t.st = c.s) ∧ ¬ NoRepeat s c)
     let (holds, why) : Bool × String :=
       if !stable then (false, "unstable: repeated expansion of the same input gave different results")
+      else if implErr == "dup-name" && namesOk && !repeats then
+        (false, "spurious-duplicate: duplicate-definition error although all names are clean, no suite or test name is repeated and no relevant list repeats a value in use")
       else if !wf then (true, "")
       else if spec.isEmpty then (!implOk, if implOk then "extra: permutations returned although none is specified" else "")
       else if !implOk then (false, s!"rejected ({implErr}) although the suites are well-formed and {spec.length} permutation(s) are specified")
@@ -101,7 +128,19 @@ def handle : Handler := fun op inp impl =>
         | .error e => Json.mkObj [("err", toString (repr e))]
         | .ok lib => Json.mkObj [("perms", toJson lib.length)],
       why := why,
-      cls := if !wf then "ill-formed" else if spec.isEmpty then "empty" else "ok" }
+      cls := match m with
+        | .error e => (if !wf then "ill-formed:" else if spec.isEmpty then "empty:" else "UNEXPECTED-REJECT:") ++ errName e ++
+            (match e with
+              | .misconfigured n => ":" ++ ((suites.find? (·.name == n)).map misconfiguredWhy).getD "?"
+              | .duplicateName _ =>
+                if !namesOk then (if decide (DefinitionsDistinct suites) then ":names-not-clean" else ":definition-repeated")
+                else if repeats then ":relevant-list-repeats" else ":UNEXPECTED"
+              | _ => "")
+        | .ok _ =>
+          if !wf then "UNEXPECTED-ACCEPT"
+          else if suites.any (fun s => decide (ModeAdmits s mode) &&
+              !(decide (s.protocols.Nodup ∧ s.versions.Nodup ∧ s.codecs.Nodup ∧ s.comps.Nodup))) then "ok:relevant-list-repeats-unused-value"
+          else if namesOk then "ok:names-clean" else "ok:names-not-clean" }
   | "parse" =>
     let suites := (arr (field inp "suites")).map suiteOf
     let implErr := str (field impl "err")
@@ -112,6 +151,22 @@ def handle : Handler := fun op inp impl =>
       model := toJson (toString (repr m)),
       why := if holds then "" else if ok then s!"rejected ({implErr}) although raw payloads are used where allowed" else "accepted: a raw payload is used where it is not allowed",
       cls := if ok then "ok" else "rejected" }
+  | "join" =>
+    let elems := strList (field inp "elems")
+    let impl' := str (field impl "joined")
+    let m := pathJoin elems
+    -- `segments_pathJoin` on the implementation's output: clean components keep their segments
+    let clean := !elems.isEmpty && elems.all fun x => decide (CleanName x)
+    let holds := !clean || segments impl' == elems.flatMap segments
+    { agree := m == impl', holds := holds, nontrivial := clean || impl' != "/".intercalate elems,
+      model := toJson m,
+      why := if holds then "" else "path.Join changed the segments of clean components",
+      cls := if elems.all (· == "") then "empty"
+        else if clean then "clean"
+        else if impl' == "/".intercalate (elems.filter (· != "")) then "unclean-but-unchanged"
+        else if impl'.startsWith "/" then "rewritten:rooted"
+        else if impl'.startsWith ".." then "rewritten:leading-dotdot"
+        else if impl' == "." then "rewritten:to-dot" else "rewritten" }
   | _ => bad ("C07: unknown op " ++ op)
 
 end ConfModel.Driver.C07
